@@ -58,6 +58,9 @@ def gen_tests(tier):
         svs = list(SOLVERS) if tier != "quick" else [list(SOLVERS)[(len(out)) % 3]]
         for sv in svs:
             out.append((sv, {"sig": sig2, "shape": "nested", "guards": [g1, g2], "fails": ["panic1"]}))
+    for g1, g2 in testgen.EXP_PAIRS:
+        for sv in SOLVERS:
+            out.append((sv, {"sig": sig2, "shape": "nested", "guards": [g1, g2], "fails": ["panic1"]}))
     for g1, g2 in testgen.DIV0_PAIRS:
         for sv in SOLVERS:
             out.append((sv, {"sig": sig2, "shape": "nested", "guards": [g1, g2], "fails": ["panic1"]}))
